@@ -119,6 +119,33 @@ Theorem C04_py_rtpg_exact_extended_header : forall (len4 ext : bytes) (groups : 
              ("target_port_group_descriptors", PList (map tpg_dict groups))]).
 Proof. exact rtpg_exact_extended_header. Qed.
 
+(* REPORT PRIORITY (descriptors that carry their own length): 8 fixed bytes + a TransportID of ADDITIONAL LENGTH bytes each *)
+Theorem C04_py_report_priority_exact : forall (len4 : bytes) (descs : list pdesc) (trail : bytes) f,
+  length len4 = 4%nat -> Forall pd_ok descs ->
+  Z.of_N (ba_to_int len4) = Z.of_nat (length (concat (map pd_bytes descs))) ->
+  (length descs + 2 <= f)%nat ->
+  call_fun all_tables py_program f RPRI [PBytes (len4 ++ concat (map pd_bytes descs) ++ trail)%list] =
+  Ok (PDict [("priority_descriptors", PList (map pd_dict descs))]).
+Proof. exact report_priority_exact. Qed.
+
+(* PERSISTENT RESERVE IN / READ FULL STATUS: 24 fixed bytes + a TransportID each; the TransportID is decoded by ANOTHER
+   regenerated function (a call inside the loop); the theorem is compositional in what that function returns ... *)
+Theorem C04_py_read_full_status_exact : forall (hdr : bytes) (descs : list fsdesc) (trail : bytes) f,
+  length hdr = 8%nat -> Forall fs_ok descs ->
+  Z.of_N (ba_to_int (skipn 4 hdr)) = Z.of_nat (length (concat (map fs_bytes descs))) ->
+  (length descs + 3 <= f)%nat ->
+  call_fun all_tables py_program f RFS [PBytes (hdr ++ concat (map fs_bytes descs) ++ trail)%list] =
+  Ok (PDict [("pr_generation", PInt (Z.of_N (ba_to_int (firstn 4 hdr)))); ("full_status", PList (map fs_dict descs))]).
+Proof. exact prin_read_full_status_exact. Qed.
+
+(* ... and what it returns for the 24-byte Fibre Channel and SAS TransportIDs, whatever follows them in the buffer *)
+Theorem C04_py_transport_id_fc_sas : forall tid, length tid = 24%nat ->
+  (lookup "protocol_id" (tid_fields tid) = Some (PInt 0) ->
+     tid_decodes tid (PDict (tid_fields tid ++ [("n_port_name", PBytes (firstn 8 (skipn 8 tid)))])%list)) /\
+  (lookup "protocol_id" (tid_fields tid) = Some (PInt 6) ->
+     tid_decodes tid (PDict (tid_fields tid ++ [("sas_address", PBytes (firstn 8 (skipn 4 tid)))])%list)).
+Proof. intros tid Hl. split; intros Hp; [exact (tid_decodes_fc tid Hl Hp)|exact (tid_decodes_sas tid Hl Hp)]. Qed.
+
 (* non-vacuity: a two-group response (2 ports, 0 ports) with trailing bytes, run through the regenerated body *)
 Example C04_example_py_rtpg :
   call_fun all_tables py_program 100 RTPG
